@@ -320,12 +320,17 @@ func (s *BooleanSearcher) advanceIfTrailing(ctx *search.Context, number uint64) 
 	}
 
 	if s.shouldSearcher != nil {
-		if s.currShould != nil {
-			ctx.DocumentMatchPool.Put(s.currShould)
-		}
-		s.currShould, err = s.shouldSearcher.Advance(ctx, number)
-		if err != nil {
-			return err
+		// When there is a must searcher the cursor of the should searcher isn't
+		// tracked by currentMatch either: it may already be at or ahead of the
+		// requested number, advancing it again would skip that document.
+		if s.currShould == nil || s.currShould.Number < number {
+			if s.currShould != nil {
+				ctx.DocumentMatchPool.Put(s.currShould)
+			}
+			s.currShould, err = s.shouldSearcher.Advance(ctx, number)
+			if err != nil {
+				return err
+			}
 		}
 	}
 
